@@ -274,36 +274,23 @@ Definition foreign_kept_check : bool :=
   | _ => false end.
 Example ex_foreign_kept : foreign_kept_check = true. Proof. vm_compute. reflexivity. Qed.
 
-(* ----- what is still outside the round-trip domain: refutation witnesses ----- *)
-(* a derivation whose path is empty (the master key itself; accepted by Updater.AddInBip32Derivation)
-   is written as four bytes and rejected by readBip32Derivation *)
+(* ----- repaired by 2b1b006: a derivation with an empty path, a 44-byte witness UTXO ----- *)
 Definition ex_pubkey : bytes := x02 :: repeat x11 32.
 Definition ex_empty_path : pset :=
   mk_pset (ex_global 1 0) [ex_setl [(6%nat, [(ex_pubkey, le_enc 4 7)])] ex_input_min] [].
-Definition reject_check (p : pset) : bool :=
-  negb (wf_ex p) && match ser_pset p with ROk bs => is_err (parse_ex bs) | _ => false end.
-Lemma reject_check_elim p : reject_check p = true -> exists bs, ser_pset p = ROk bs /\ parse_ex bs = RErr.
-Proof.
-  unfold reject_check. intro H. apply andb_true_iff in H as [_ H].
-  destruct (ser_pset p) as [bs| |]; try discriminate. exists bs. split; [reflexivity|].
-  destruct (parse_ex bs); try discriminate. reflexivity.
-Qed.
-Lemma empty_path_check : reject_check ex_empty_path = true. Proof. vm_compute. reflexivity. Qed.
-Theorem empty_bip32_path_refuted : exists p bs, ser_pset p = ROk bs /\ parse_ex bs = RErr.
-Proof. exists ex_empty_path. apply reject_check_elim. exact empty_path_check. Qed.
-
-(* a witness UTXO with an empty script encodes to 44 bytes; readTxOut wants 45 *)
 Definition ex_txout44 : bytes := (x01 :: repeat x33 32) ++ (x01 :: repeat x00 8) ++ [x00] ++ [x00].
 Definition ex_short_utxo : pset := mk_pset (ex_global 1 0) [ex_set [(iWitnessUtxo, ex_txout44)] ex_input_min] [].
-Lemma short_utxo_check : reject_check ex_short_utxo = true. Proof. vm_compute. reflexivity. Qed.
-Theorem short_witness_utxo_refuted : exists p bs, ser_pset p = ROk bs /\ parse_ex bs = RErr.
-Proof. exists ex_short_utxo. apply reject_check_elim. exact short_utxo_check. Qed.
+Example ex_empty_path_rt : rt_check ex_empty_path = true. Proof. vm_compute. reflexivity. Qed.
+Example ex_short_utxo_rt : rt_check ex_short_utxo = true. Proof. vm_compute. reflexivity. Qed.
 
-(* ... and the same output followed by one stray byte (45 bytes) is accepted, re-serialized as 44
-   bytes and then rejected: parse, serialize, parse is NOT the identity on this accepted encoding *)
-Definition ex_stream_utxo45 : bytes :=
+(* ----- what is still outside: parse, serialize, parse is NOT the identity on every accepted encoding.
+   readTxOut ignores the bytes after the script and asks for 44 bytes in total: an output with a null
+   (one-byte) value encodes to 36 bytes; followed by eight stray bytes it is accepted, re-serialized as
+   36 bytes and then rejected.  (Null values belong to issuances; no output of a transaction has one.) *)
+Definition ex_txout36 : bytes := (x01 :: repeat x33 32) ++ [x00] ++ [x00] ++ [x00].
+Definition ex_stream_utxo_trailing : bytes :=
   magic_sep ++ enc_kps [mk_kpair 2 [] (le_enc 4 2); mk_kpair 4 [] [x01]; mk_kpair 5 [] [x00]; mk_kpair 251 [] (le_enc 4 2)] ++ [pset_sep]
-            ++ enc_kps [mk_kpair 1 [] (ex_txout44 ++ [xee]); mk_kpair 14 [] (repeat xaa 32); mk_kpair 15 [] (le_enc 4 1)] ++ [pset_sep].
+            ++ enc_kps [mk_kpair 1 [] (ex_txout36 ++ repeat xee 8); mk_kpair 14 [] (repeat xaa 32); mk_kpair 15 [] (le_enc 4 1)] ++ [pset_sep].
 Definition psp_check (bs : bytes) : bool :=
   match parse_ex bs with
   | ROk p => match ser_pset p with ROk bs' => is_err (parse_ex bs') | _ => false end
@@ -315,10 +302,10 @@ Proof.
   destruct (ser_pset p) as [bs'| |] eqn:S; try discriminate. exists p, bs'.
   split; [reflexivity|]. split; [exact S|]. destruct (parse_ex bs'); try discriminate. reflexivity.
 Qed.
-Lemma utxo45_check : psp_check ex_stream_utxo45 = true. Proof. vm_compute. reflexivity. Qed.
+Lemma utxo_trailing_check : psp_check ex_stream_utxo_trailing = true. Proof. vm_compute. reflexivity. Qed.
 Theorem witness_utxo_trailing_refuted :
-  exists p bs', parse_ex ex_stream_utxo45 = ROk p /\ ser_pset p = ROk bs' /\ parse_ex bs' = RErr.
-Proof. exact (psp_check_elim ex_stream_utxo45 utxo45_check). Qed.
+  exists p bs', parse_ex ex_stream_utxo_trailing = ROk p /\ ser_pset p = ROk bs' /\ parse_ex bs' = RErr.
+Proof. exact (psp_check_elim ex_stream_utxo_trailing utxo_trailing_check). Qed.
 
 (* ================= F. ties to the constants regenerated from /repo ================= *)
 From GE Require Import Gen.PsetV2Consts Gen.PsetV2GlobalConsts Gen.PsetV2InputConsts Gen.PsetV2OutputConsts.
@@ -366,7 +353,7 @@ Lemma pset_tables_tied_holds : pset_tables_tied.
 Proof. unfold pset_tables_tied. repeat split; vm_compute; reflexivity. Qed.
 
 (* ================= G. parse, serialize, parse ================= *)
-(* full statement (false, see witness_utxo_trailing_refuted):
+(* full statement (false, see witness_utxo_trailing_refuted; true under pset_ext, see PsetV2Inv.v):
      forall bs p, parse_pset bs = ROk p -> exists bs', ser_pset p = ROk bs' /\ parse_pset bs' = ROk (norm_pset p)
    proved: the statement for accepted encodings whose packet lies in the round-trip domain. *)
 Theorem pset_parse_ser_parse_partial pk der xo canon bs p :
